@@ -68,6 +68,9 @@ def make_any(rng: random.Random):
                 return h
             elif k == "1d_exp":
                 bins = binnings.ExponentialBinning(log_min=rng.choice([-1.0, 0.0, 0.5]), log_width=rng.choice([0.25, 0.5]), bin_count=rng.randint(1, 6))
+                if rng.random() < 0.3:
+                    # the parameters as numpy hands them over (bin_count from an array's max(), a range taken from float32 data)
+                    bins = binnings.ExponentialBinning(log_min=np.float32(rng.choice([-1.0, 0.0, 0.5])), log_width=np.float32(rng.choice([0.25, 0.5])), bin_count=np.int64(rng.randint(1, 6)))
                 pairs = np.asarray(bins.bins).tolist()
                 data = np.asarray(gen.data_for_bins(rng, pairs, n), dtype=float)
             if k == "1d_near_one":
@@ -97,6 +100,18 @@ def make_any(rng: random.Random):
                 # no member yet (the documented way to start one: binning=..., members created later)
                 ckw["binning"] = physt.h1([e[0]], np.array(e)).binning
             flags["meta"] = flags["meta"] or bool(ckw)
+            if rng.random() < 0.25:
+                # adaptive bins: every member owns its copy of the binning and grows on its own - still one collection, still a document
+                with warnings.catch_warnings():
+                    warnings.simplefilter("ignore")
+                    if rng.random() < 0.5:
+                        col = HistogramCollection(binning=binnings.FixedWidthBinning(bin_width=rng.choice([1.0, 0.5]), adaptive=True), **{k_: v_ for k_, v_ in ckw.items() if k_ != "binning"})
+                        for i_ in range(rng.randint(1, 3)):
+                            col.create(f"m{i_}", np.asarray([rng.uniform(-3, 6) for _ in range(rng.randint(1, 5))]))
+                    else:
+                        col = physt.collection({f"m{i_}": np.asarray([rng.uniform(0, 4) for _ in range(rng.randint(1, 5))]) for i_ in range(rng.randint(2, 3))}, "fixed_width", bin_width=1.0, adaptive=True)
+                        col.histograms[-1].fill(rng.choice([7.3, -5.2]))
+                return col, kind, flags
             return HistogramCollection(*hs, **ckw), kind, flags
         h = one_1d(kind)
         if h.keep_missed and rng.random() < 0.3 and not h.is_adaptive() and np.dtype(h.dtype).kind == "f":
